@@ -87,8 +87,10 @@ TOLERANCES = {
     'conj_value': '|f*(y)-ref| <= 512*eps*n*(1+|ref|+sum w(|y|+y^2)) + the '
                   'change of the reference under a 32-ulp input '
                   'perturbation (conditioning next to the boundary); '
-                  'domain membership is only judged when the reference '
-                  'residual is > 1e3*eps*scale away from 0',
+                  'finiteness is asserted only for points whose reference '
+                  'domain residual is < -1e3*eps*(1+C+|y|), infinity only '
+                  'for residual > +1e3*eps*(1+C+|y|); in the band either '
+                  'answer passes (note boundary-band)',
     'adversarial': 'boundary offset delta = 1e-6 (float64) / 2e-3 (float32) '
                    'relative',
     'biconj': '|f**(x)-f(x)| <= 512*eps*n*(1+|f|+sum w x^2) + the change '
@@ -504,13 +506,19 @@ def _check_node(B, pts, top, fd, ctx, probe=True, do_sup=True):
         if rv is None:
             return
         res = ref.conj_residual(yf)
-        margin = 1e3 * eps * (1.0 + float(np.max(np.abs(yf))) if n else 1.0)
-        if res is not None and abs(res) <= margin and not (
-                ref.thin_conj_dom and res == 0):
-            # (a thin domain -- a single point -- hit exactly is judged)
-            note('boundary_skipped')
-            return
+        margin = 1e3 * eps * (1.0 + rscale + (
+            float(np.max(np.abs(yf))) if n else 0.0))
         lv = _val(fc, ye, 'f*(y)', sig)
+        if res is not None and abs(res) <= margin:
+            # boundary band of dom f*: finiteness is asserted only a margin
+            # inside, infinity only a margin outside; in between either
+            # answer passes.  (Only when a thin domain -- a single point --
+            # is hit exactly and both sides are finite are the values
+            # compared.)
+            if not (ref.thin_conj_dom and res == 0 and np.isfinite(lv) and
+                    np.isfinite(rv)):
+                note('boundary-band')
+                return
         if np.isinf(rv) or np.isinf(lv):
             if rv != lv:
                 raise Violation(
@@ -530,7 +538,7 @@ def _check_node(B, pts, top, fd, ctx, probe=True, do_sup=True):
             dy = 32 * eps * (np.abs(yf) + 1.0)
             r1, r2 = ref.conj(yf + dy), ref.conj(yf - dy)
             if not (np.isfinite(r1) and np.isfinite(r2)):
-                note('boundary_skipped')
+                note('boundary-band')
                 return
             t += 4 * (abs(r1 - rv) + abs(r2 - rv))
         if abs(lv - rv) > t:
@@ -573,7 +581,8 @@ def _check_node(B, pts, top, fd, ctx, probe=True, do_sup=True):
                     cands.append(x0 + t * (yf - ccenter))
                 if where in ('out', 'far'):
                     lv = _val(fc, ye, 'f*(y)', sig)
-                    margin = 1e3 * eps * (1.0 + float(np.max(np.abs(yf))))
+                    margin = 1e3 * eps * (1.0 + rscale +
+                                          float(np.max(np.abs(yf))))
                     if np.isfinite(lv) and res is not None and res > margin:
                         # library domain larger than the reference domain:
                         # look for a concrete Fenchel-Young witness
@@ -740,9 +749,10 @@ def _check_node(B, pts, top, fd, ctx, probe=True, do_sup=True):
                     if a != b:
                         dr = ref.dom_residual(xf) if ref is not None \
                             else None
-                        margin = 1e3 * eps * (1 + float(np.max(np.abs(xf))))
+                        margin = 1e3 * eps * (1 + rscale +
+                                              float(np.max(np.abs(xf))))
                         if dr is not None and abs(dr) <= margin:
-                            note('boundary_skipped')
+                            note('boundary-band')
                             continue
                         raise Violation(
                             sig('biconj'),
@@ -761,7 +771,7 @@ def _check_node(B, pts, top, fd, ctx, probe=True, do_sup=True):
                     r1, r2 = ref.value(xf + dx), ref.value(xf - dx)
                     if not (np.isfinite(r1) and np.isfinite(r2) and
                             np.isfinite(r0)):
-                        note('boundary_skipped')
+                        note('boundary-band')
                         continue
                     t += 4 * (abs(r1 - r0) + abs(r2 - r0))
                 if abs(a - b) > t:
